@@ -397,3 +397,46 @@ PROPS["C13"] = dict(mc=_dist_mc(), record=True, trace="Trace_Tfm", shards=12,
     level_note="Same limits as C12. Trusted: TLC, Json module.",
     rule="impl->spec: one event per (matrix, background, p) with all iterations; distinct_nontrivial = distinct queries.",
     assumptions=["at most 6 refinement steps are recorded per query"])
+
+
+def _py_mc():
+    return [
+        dict(name="MC_PyObj", module="MC_PyObj", invariants=["IndexOK", "ViewOK"],
+             constants=dict(AccessNormalised=True, ShapeRowsFirst=True), quick=dict(MaxLen=4), thorough=dict(MaxLen=7)),
+        dict(name="MC_PyObj_neg_raw_index", module="MC_PyObj", invariants=["IndexOK"], expect_violation="IndexOK",
+             constants=dict(AccessNormalised=False, ShapeRowsFirst=True, MaxLen=3)),
+        dict(name="MC_PyObj_neg_view_shape", module="MC_PyObj", invariants=["ViewOK"], expect_violation="ViewOK",
+             constants=dict(AccessNormalised=True, ShapeRowsFirst=False, MaxLen=1)),
+        dict(name="MC_Striped_reuse", module="MC_Striped", view="View", invariants=STRIPED_INV, actions=STRIPED_ACT,
+             constants=dict(C=2, K=3, Variant='"generic"', T=2, Emit=False, MaxWrap=4, MaxLen=4, MaxDepth=3)),
+    ]
+PROPS["C17"] = dict(mc=_py_mc(), record=True, trace="Trace_Py", shards=12, package="lmpyconform", record_timeout=900,
+    level_text="The Python module is driven in an embedded CPython in which /repo's lightmotif-py crate is registered as "
+               "lightmotif.lib; every recorded call (calculate on a striped sequence reused with motifs of different widths "
+               "in both orders, max / argmax / threshold, scan with thresholds and block sizes, create, CountMatrix.normalize "
+               "with float / dict pseudocounts, log_odds with background dict and base, pvalue / score with both methods, "
+               "reverse_complement, load from path / file object / short-read file object in four formats, and 21 error "
+               "paths) is validated by TLC against the same D-layer operators that decide C01-C03, C07, C09-C14: "
+               "WindowScore, MaxDef / ThresholdSet, Qual, rational weights and fixed-point log-odds, exact tails, RC, "
+               "ExpectedMatrix. Failures must be ordinary exceptions, never pyo3 PanicException. The dispatcher arm is forced "
+               "through hook H1 from Python.",
+    level_note="Grid matrices (k/4) make scores exact; weights to 2^-12, log-odds to 6/1024. The Scanner is driven on the "
+               "detected and AVX2 arms only (the other arms hit the known generic 8-bit kernel finding of C08). MC covers the "
+               "index / view mechanisms and buffer reuse, not the whole object graph. Trusted: TLC, Json module, CPython, "
+               "py/driver.py (records only, computes no expected value).",
+    rule="impl->spec: one event per Python call history element; distinct_nontrivial = distinct events.",
+    assumptions=["the embedded interpreter is the system python3 the lightmotif-py crate links against"])
+PROPS["C18"] = dict(mc=_py_mc(), record=True, trace="Trace_Py", shards=12, package="lmpyconform", record_timeout=900,
+    level_text="Sequence protocol and buffer views of every Python object class are specified in PyObj (GetItemOK: -len..len-1 "
+               "give the element, everything else IndexError, never a panic; views: format / itemsize / ndim / shape of the "
+               "logical object and tolist() equal to the logical contents) and model-checked for the index normalisation and "
+               "the view addressing (original raw-index access and (K, M) shape as negative controls). Recorded probes of "
+               "EncodedSequence, StripedSequence (before and after look-ahead rows were added by calculate), StripedScores, "
+               "Count / Weight / ScoringMatrix and the survival function, for all indices -len-2..len+1 and memoryview "
+               "tolist(), sizes incl. empty objects and widths whose stride differs from the column count, are validated by TLC.",
+    level_note="Both readings of the ScoringMatrix buffer ((positions, symbols) or (symbols, positions)) are accepted when "
+               "shape, strides and elements agree; (C, R + wrap) is accepted for striped sequences if the extra rows are the "
+               "look-ahead rows. A hard crash of the interpreter would be reported as a tool error. Trusted: TLC, CPython's "
+               "memoryview.",
+    rule="impl->spec: one event per (object, all probed indices) or per view; distinct_nontrivial = distinct events.",
+    assumptions=["CPython's memoryview.tolist() follows shape / strides / format faithfully"])
